@@ -172,3 +172,16 @@ Fixpoint py_dict_del {K V : Type} (eqb : K -> K -> bool) (d : list (K * V)) (k :
 (* d.update(o) for a dict o: its entries are assigned in its order *)
 Definition py_dict_update {K V : Type} (eqb : K -> K -> bool) (d o : list (K * V)) : list (K * V) :=
   fold_left (fun acc kv => py_dict_set eqb acc (fst kv) (snd kv)) o d.
+
+(* {e for x in s} / set(<list>): the elements, each once, in the order of first occurrence *)
+Definition py_set_of_list {A : Type} (eqb : A -> A -> bool) (l : list A) : list A :=
+  fold_left (fun acc x => py_union eqb acc [x]) l [].
+
+(* sorted(<str collection>) / list.sort() on str: insertion sort with <= on str (code point order on ASCII); the result of
+   sorting is unique, so the sorting algorithm does not matter *)
+Fixpoint py_insert_str (x : string) (l : list string) : list string :=
+  match l with
+  | [] => [x]
+  | y :: t => if String.leb x y then x :: l else y :: py_insert_str x t
+  end.
+Definition py_sorted_str (l : list string) : list string := fold_right py_insert_str [] l.
